@@ -4,8 +4,11 @@ TRUSTED = ("Trusted base: rustc nightly's MIR for the dev profile (opt-level 0, 
            "is representative of the shipped program; the okfacts driver and analysis/*.py; the "
            "reviewed reasons in rules/tables/*.toml (those with a `support` list are re-checked "
            "mechanically on every run); dependencies (winnow, rust_decimal, chrono, glob, std) honour "
-           "their documented panics and iteration order.  Decides the structural clauses named in the "
-           "text, not numeric results.")
+           "their documented panics and iteration order; analysis/inline.py and analysis/desugar.py "
+           "(helper inlining, jump threading, std combinators and `?` written out as the match / loop their "
+           "documentation defines) preserve behaviour - an obligation counts as discharged when it is "
+           "discharged on the program as compiled or on one of these equivalent views (DESIGN.md 10.8).  "
+           "Decides the structural clauses named in the text, not numeric results.")
 
 CLAIMED = {
     "C06": {
